@@ -1,1 +1,12 @@
 -- modules of work area Routing (add imports here)
+import AM.Base.Labels
+import AM.Base.Matcher
+import AM.Model.Route
+import AM.Model.Grouping
+import AM.Model.GroupMap
+import AM.Lemmas.GroupMapInv
+import AM.Lemmas.GroupMapStep
+import AM.Lemmas.GroupMapMain
+import AM.Props.C07
+import AM.Props.C06Conc
+import AM.Props.C06
